@@ -54,7 +54,7 @@ CHECKS = {
    note="Trusted: determinism of the prefix up to the faulted operation (self-test); faults are injected at the Directory seam and at the os seam only, never on the harness's own probes; 'surfaced' is checked as 'AsyncError fired at least once when a background step failed'.",
    technique="deterministic simulation: replay of a recorded run with enumerated single/paired/sticky I/O fault placements, containment + bounded-liveness + crash oracles"),
  "C04": dict(level="exploration", ref="3/C04",
-   text="Seeded search over simulated runs in which client actors hold several Readers of different ages open while batches, merges, persist swaps, unlinks and Close are scheduled between their reads; the first full read (count, match-all, stored fields, id lookup, sorted top-N over document values, aggregations, dictionary scan, fixed and per-run generated queries of every public type, with scores) is the baseline (checked against the abstract index at acquisition); the reads are repeated at once in rotated order (answers must not depend on search history) and every later read, in yet another order, must be identical; a fault of the process is reported as the violation. Sampling of schedules, not proof.",
+   text="Seeded search over simulated runs in which client actors hold several Readers of different ages open while batches, merges, persist swaps, unlinks and Close are scheduled between their reads; the first full read (count, match-all, stored fields, id lookup, sorted top-N over document values, aggregations, dictionary scan, fixed and per-run generated queries of every public type, with scores) is the baseline (checked against the abstract index at acquisition); the reads are repeated at once in rotated order (answers must not depend on search history) and every later read, in yet another order, must be identical, including a last read after Writer.Close returned (Close at quiescence or at an arbitrary moment while merges and persists are in progress); a fault of the process is reported as the violation. Sampling of schedules, not proof.",
    note="Trusted: gate wrappers delegate; regions between gates are atomic w.r.t. other gated actors; reads cover the listed query kinds only.",
    technique="deterministic simulation: held readers re-read across gated background steps, baseline-equality oracle"),
  "C05": dict(level="exploration", ref="3/C05",
